@@ -114,6 +114,18 @@ func (b *baseIndex[K, E]) populateErrWrapped() error {
 	return nil
 }
 
+// uniqueValues returns a copy of values without repeats, preserving order, so
+// that a value listed twice in a Filter call does not yield its keys twice.
+func uniqueValues[V comparable](values []V) []V {
+	out := make([]V, 0, len(values))
+	for _, v := range values {
+		if !slices.Contains(out, v) {
+			out = append(out, v)
+		}
+	}
+	return out
+}
+
 // LookupIndex is an in-memory exact-match secondary index on a field of
 // type V extracted from entries of type E. Construct via NewLookupIndex
 // and register on a Table through TableConfig.Indexes.
@@ -322,7 +334,7 @@ func (l *LookupIndex[K, E, V]) Get(tx Tx, values ...V) ([]K, error) {
 // eval predicate carried alongside the resolver, so queries continue
 // to return correct results at scan cost.
 func (l *LookupIndex[K, E, V]) Filter(values ...V) Filter[K, E] {
-	captured := append([]V(nil), values...)
+	captured := uniqueValues(values)
 	return Filter[K, E]{
 		resolve: func(ctx context.Context, tx Tx) (resolved[K, E], error) {
 			if err := l.waitPopulated(ctx); err != nil {
@@ -578,7 +590,7 @@ func (s *SortedIndex[K, E, V]) Get(tx Tx, values ...V) ([]K, error) {
 // and falls back to a sequential scan when populate fails. See
 // LookupIndex.Filter for the populate-failure contract.
 func (s *SortedIndex[K, E, V]) Filter(values ...V) Filter[K, E] {
-	captured := append([]V(nil), values...)
+	captured := uniqueValues(values)
 	return Filter[K, E]{
 		resolve: func(ctx context.Context, tx Tx) (resolved[K, E], error) {
 			if err := s.waitPopulated(ctx); err != nil {
